@@ -338,8 +338,15 @@ theorem finThru_ok {s0 : St} {pf : Abs → Post} {A : AbsSet} {k : Exit} {r2 : R
             first | exact absurd rfl he | exact absurd rfl hk | exact ha | exact mem_union.mpr (Or.inl ha) | cases ha
     · exact OK.join_right _ (ih hr)
 
-theorem run_zero (sc : Stmt) (s : St) (os : Outcomes) : run 0 sc s os = ⟨.stuck, s, os⟩ := by
-  unfold run; rfl
+theorem runG_zero (H : Handler) (sc : Stmt) (s : St) (os : Outcomes) : runG H 0 sc s os = ⟨.stuck, s, os⟩ := by
+  unfold runG; rfl
+
+theorem run_zero (sc : Stmt) (s : St) (os : Outcomes) : run 0 sc s os = ⟨.stuck, s, os⟩ := runG_zero _ sc s os
+
+theorem Handler.shallow_atomic : Handler.shallow.Atomic := by
+  intro fuel f v os hr
+  simp only [Handler.shallow] at hr ⊢
+  simp [hr]
 
 theorem invStable_norm {body : Abs → Post} {I : AbsSet} (h : invStable body I = true) :
     I.coversAll (bindAll body I).norm = true := by
@@ -357,33 +364,33 @@ theorem bindAll_bot_norm_covered (body : Abs → Post) : invStable body [Abs.bot
 
 /-- **Soundness of the analysis**: whatever way an execution ends, some abstract post-state computed for that way
 of ending describes the concrete final state. -/
-theorem post_sound (s0 : St) (h0 : ∀ f, s0.cur f < s0.next) :
-    ∀ fuel sc s a os, Sound s0 s a → OK s0 (run fuel sc s os) (post sc a) := by
+theorem post_soundG (H : Handler) (hH : H.Atomic) (s0 : St) (h0 : ∀ f, s0.cur f < s0.next) :
+    ∀ fuel sc s a os, Sound s0 s a → OK s0 (runG H fuel sc s os) (post sc a) := by
   intro fuel
   induction fuel using Nat.strongRecOn with
   | _ n ih =>
     intro sc s a os hs
     cases n with
-    | zero => rw [run_zero]; exact Or.inl rfl
+    | zero => rw [runG_zero]; exact Or.inl rfl
     | succ n =>
-      have ihn : ∀ sc s a os, Sound s0 s a → OK s0 (run n sc s os) (post sc a) :=
+      have ihn : ∀ sc s a os, Sound s0 s a → OK s0 (runG H n sc s os) (post sc a) :=
         ih n (Nat.lt_succ_self n)
       have one : ∀ {st : St} {os' : Outcomes} {p : Post} {x : Abs} (k : Exit), k ≠ .stuck → x ∈ p.get k →
           Sound s0 st x → OK s0 ⟨k, st, os'⟩ p := fun k _ hx hsx => Or.inr ⟨_, hx, hsx⟩
       cases sc with
-      | skip => simp only [run, post]; exact one .norm (by decide) (by simp [Post.get]) hs
+      | skip => simp only [runG, post]; exact one .norm (by decide) (by simp [Post.get]) hs
       | mark k =>
-        simp only [run, post]
+        simp only [runG, post]
         exact one .norm (by decide) (by simp [Post.get])
           ⟨hs.clean, hs.valid, hs.cvalid, hs.fresh, hs.known, hs.next, hs.ro⟩
-      | assign f => simp only [run, post]; exact one .norm (by decide) (by simp [Post.get]) (sound_assign f hs)
-      | mutate f => simp only [run, post]; exact one .norm (by decide) (by simp [Post.get]) (sound_mutate h0 f hs)
-      | save f => simp only [run, post]; exact one .norm (by decide) (by simp [Post.get]) (sound_save f hs)
-      | restore f => simp only [run, post]; exact one .norm (by decide) (by simp [Post.get]) (sound_restore f hs)
-      | saveC f => simp only [run, post]; exact one .norm (by decide) (by simp [Post.get]) (sound_saveC f hs)
-      | restoreC f => simp only [run, post]; exact one .norm (by decide) (by simp [Post.get]) (sound_restoreC f hs)
+      | assign f => simp only [runG, post]; exact one .norm (by decide) (by simp [Post.get]) (sound_assign f hs)
+      | mutate f => simp only [runG, post]; exact one .norm (by decide) (by simp [Post.get]) (sound_mutate h0 f hs)
+      | save f => simp only [runG, post]; exact one .norm (by decide) (by simp [Post.get]) (sound_save f hs)
+      | restore f => simp only [runG, post]; exact one .norm (by decide) (by simp [Post.get]) (sound_restore f hs)
+      | saveC f => simp only [runG, post]; exact one .norm (by decide) (by simp [Post.get]) (sound_saveC f hs)
+      | restoreC f => simp only [runG, post]; exact one .norm (by decide) (by simp [Post.get]) (sound_restoreC f hs)
       | guard =>
-        simp only [run, post]
+        simp only [runG, post]
         cases hi : a.isro with
         | true =>
           have := hs.ro.2 hi
@@ -404,19 +411,19 @@ theorem post_sound (s0 : St) (h0 : ∀ f, s0.cur f < s0.next) :
               refine Or.inr ⟨{ a with nro := true }, by simp [Post.get, hi],
                 ⟨hs.clean, hs.valid, hs.cvalid, hs.fresh, hs.known, hs.next, ?_⟩⟩
               exact ⟨fun _ => hr, fun x => by simp [hi] at x⟩
-      | raise => simp only [run, post]; exact one .exc (by decide) (by simp [Post.get]) hs
+      | raise => simp only [runG, post]; exact one .exc (by decide) (by simp [Post.get]) hs
       | mayRaise =>
-        simp only [run, post]
+        simp only [runG, post]
         split
         · exact one .exc (by decide) (by simp [Post.get]) hs
         · exact one .norm (by decide) (by simp [Post.get]) hs
-      | ret => simp only [run, post]; exact one .ret (by decide) (by simp [Post.get]) hs
-      | brk => simp only [run, post]; exact one .brk (by decide) (by simp [Post.get]) hs
-      | cont => simp only [run, post]; exact one .cont (by decide) (by simp [Post.get]) hs
-      | setFlag b v => simp only [run, post]; exact one .norm (by decide) (by simp [Post.get]) (sound_setFlag b v hs)
-      | havoc b => simp only [run, post]; exact one .norm (by decide) (by simp [Post.get]) (sound_dropFlag b _ hs)
+      | ret => simp only [runG, post]; exact one .ret (by decide) (by simp [Post.get]) hs
+      | brk => simp only [runG, post]; exact one .brk (by decide) (by simp [Post.get]) hs
+      | cont => simp only [runG, post]; exact one .cont (by decide) (by simp [Post.get]) hs
+      | setFlag b v => simp only [runG, post]; exact one .norm (by decide) (by simp [Post.get]) (sound_setFlag b v hs)
+      | havoc b => simp only [runG, post]; exact one .norm (by decide) (by simp [Post.get]) (sound_dropFlag b _ hs)
       | ifFlag b t e =>
-        simp only [run, post]
+        simp only [runG, post]
         cases hv : a.flagVal b with
         | none =>
           simp only
@@ -433,9 +440,9 @@ theorem post_sound (s0 : St) (h0 : ∀ f, s0.cur f < s0.next) :
           | true => simp only [this, if_true]; exact ihn t s a os hs
           | false => simp only [this]; exact ihn e s a os hs
       | seq x y =>
-        simp only [run, post]
+        simp only [runG, post]
         have hb := ihn x s a os hs
-        generalize run n x s os = r at hb ⊢
+        generalize runG H n x s os = r at hb ⊢
         generalize post x a = p at hb ⊢
         rcases hb with hb | ⟨a', ha', hs'⟩
         · left; simp only [hb]
@@ -451,28 +458,28 @@ theorem post_sound (s0 : St) (h0 : ∀ f, s0.cur f < s0.next) :
               cases hx : r.exit <;> rw [hx] at ha' he <;> simp only [Post.get] at ha' ⊢ <;>
                 first | exact absurd rfl he | exact ha'
       | choice x y =>
-        simp only [run, post]
+        simp only [runG, post]
         split
         · exact OK.join_left _ (ihn x s a _ hs)
         · exact OK.join_right _ (ihn y s a _ hs)
       | loop body els =>
         have key : ∀ I : AbsSet, invStable (post body) I = true →
             ∀ m, m ≤ n + 1 → ∀ s os, Holds s0 I s →
-              OK s0 (run m (.loop body els) s os)
+              OK s0 (runG H m (.loop body els) s os)
                 (Post.join { norm := (bindAll (post body) I).brk, ret := (bindAll (post body) I).ret,
                              exc := (bindAll (post body) I).exc, roExc := (bindAll (post body) I).roExc }
                   (bindAll (post els) I)) := by
           intro I hstab m
           induction m with
-          | zero => intro _ s os _; rw [run_zero]; exact Or.inl rfl
+          | zero => intro _ s os _; rw [runG_zero]; exact Or.inl rfl
           | succ m ihm =>
             intro hm s os hI
             obtain ⟨i, hi, hsi⟩ := hI
-            simp only [run]
+            simp only [runG]
             split
-            · have hb : OK s0 (run m body s (nextOutcome os).2) (bindAll (post body) I) :=
+            · have hb : OK s0 (runG H m body s (nextOutcome os).2) (bindAll (post body) I) :=
                 OK.ofBind hi (ih m (by omega) body s i (nextOutcome os).2 hsi)
-              generalize run m body s (nextOutcome os).2 = r at hb ⊢
+              generalize runG H m body s (nextOutcome os).2 = r at hb ⊢
               rcases hb with hb | hb
               · left; simp only [hb]
               · cases hx : r.exit <;> rw [hx] at hb <;> simp only [Post.get] at hb <;> simp only []
@@ -498,9 +505,9 @@ theorem post_sound (s0 : St) (h0 : ∀ f, s0.cur f < s0.next) :
         · exact key _ (bindAll_bot_norm_covered _) (n + 1) (Nat.le_refl _) s os
             ⟨Abs.bot, List.mem_singleton.mpr rfl, hs.bot⟩
       | tryCatch body h =>
-        simp only [run, post]
+        simp only [runG, post]
         have hb := ihn body s a os hs
-        generalize run n body s os = r at hb ⊢
+        generalize runG H n body s os = r at hb ⊢
         generalize post body a = p at hb ⊢
         rcases hb with hb | ⟨a', ha', hs'⟩
         · left; simp only [hb]
@@ -514,9 +521,9 @@ theorem post_sound (s0 : St) (h0 : ∀ f, s0.cur f < s0.next) :
             apply OK.join_left
             right; rw [hx]; exact ⟨a', ha', hs'⟩
       | tryFinally body fin =>
-        simp only [run, post]
+        simp only [runG, post]
         have hb := ihn body s a os hs
-        generalize run n body s os = r at hb ⊢
+        generalize runG H n body s os = r at hb ⊢
         generalize post body a = p at hb ⊢
         rcases hb with hb | ⟨a', ha', hs'⟩
         · left; simp only [hb]
@@ -536,9 +543,9 @@ theorem post_sound (s0 : St) (h0 : ∀ f, s0.cur f < s0.next) :
             exact OK.join_right _ (OK.join_right _ (OK.join_right _ (OK.join_right _
               (OK.join_right _ (finThru_ok ha' (by decide) (ihn fin _ a' _ hs'))))))
       | scope body =>
-        simp only [run, post]
+        simp only [runG, post]
         have hb := ihn body s a os hs
-        generalize run n body s os = r at hb ⊢
+        generalize runG H n body s os = r at hb ⊢
         generalize post body a = p at hb ⊢
         rcases hb with hb | ⟨a', ha', hs'⟩
         · left; simp only [hb]
@@ -547,6 +554,21 @@ theorem post_sound (s0 : St) (h0 : ∀ f, s0.cur f < s0.next) :
           case norm => right; rw [hx]; exact ⟨a', mem_union.mpr (Or.inl ha'), hs'⟩
           case ret => right; exact ⟨a', mem_union.mpr (Or.inr ha'), hs'⟩
           all_goals (right; rw [hx]; exact ⟨a', ha', hs'⟩)
+      | call f =>
+        simp only [runG, post]
+        split
+        · exact Or.inl rfl
+        · split
+          · rename_i hr
+            have hc := hH _ _ _ _ hr
+            simp only [hc, Bool.false_eq_true, if_false]
+            exact one .exc (by decide) (by simp [Post.get]) hs
+          · exact one .norm (by decide) (by simp [Post.get]) (sound_mutate h0 f hs)
+
+theorem post_sound (s0 : St) (h0 : ∀ f, s0.cur f < s0.next) :
+    ∀ fuel sc s a os, Sound s0 s a → OK s0 (run fuel sc s os) (post sc a) :=
+  post_soundG Handler.shallow Handler.shallow_atomic s0 h0
+
 
 theorem entry_sound (fs : List Field) (st : St) : Sound st st (Abs.entry fs) :=
   ⟨fun _ _ => rfl, fun _ h => by simp [Abs.entry] at h, fun _ h => by simp [Abs.entry] at h,
@@ -567,11 +589,11 @@ theorem clean_of_holds {s0 s : St} {fs : List Field} {o : AbsSet} (h : Holds s0 
   simp only [Abs.allClean, List.all_eq_true, decide_eq_true_eq] at this
   exact hs.clean f (this f hf)
 
-theorem disciplined_atomic_aux (fs : List Field) (sc : Stmt) (hd : Disciplined fs sc = true)
-    (fuel : Nat) (st : St) (os : Outcomes) (hwf : st.WF)
-    (hexc : (run fuel sc st os).exit = .exc ∨ (run fuel sc st os).exit = .roExc) :
-    ∀ f ∈ fs, (run fuel sc st os).st.cur f = st.cur f := by
-  have hs := post_sound st hwf fuel sc st (Abs.entry fs) os (entry_sound fs st)
+theorem disciplined_atomicG (H : Handler) (hH : H.Atomic) (fs : List Field) (sc : Stmt)
+    (hd : Disciplined fs sc = true) (fuel : Nat) (st : St) (os : Outcomes) (hwf : st.WF)
+    (hexc : (runG H fuel sc st os).exit = .exc ∨ (runG H fuel sc st os).exit = .roExc) :
+    ∀ f ∈ fs, (runG H fuel sc st os).st.cur f = st.cur f := by
+  have hs := post_soundG H hH st hwf fuel sc st (Abs.entry fs) os (entry_sound fs st)
   simp only [Disciplined, Bool.and_eq_true] at hd
   rcases hexc with h | h
   · rcases hs with hs | hs
@@ -580,6 +602,12 @@ theorem disciplined_atomic_aux (fs : List Field) (sc : Stmt) (hd : Disciplined f
   · rcases hs with hs | hs
     · rw [h] at hs; cases hs
     · rw [h] at hs; exact clean_of_holds hs hd.2
+
+theorem disciplined_atomic_aux (fs : List Field) (sc : Stmt) (hd : Disciplined fs sc = true)
+    (fuel : Nat) (st : St) (os : Outcomes) (hwf : st.WF)
+    (hexc : (run fuel sc st os).exit = .exc ∨ (run fuel sc st os).exit = .roExc) :
+    ∀ f ∈ fs, (run fuel sc st os).st.cur f = st.cur f :=
+  disciplined_atomicG Handler.shallow Handler.shallow_atomic fs sc hd fuel st os hwf hexc
 
 theorem readonly_safe_aux (fs : List Field) (sc : Stmt) (hd : ReadonlySafe fs sc = true)
     (fuel : Nat) (st : St) (os : Outcomes) (hwf : st.WF) (hro : st.readonly = true)
@@ -599,54 +627,61 @@ theorem readonly_safe_aux (fs : List Field) (sc : Stmt) (hd : ReadonlySafe fs sc
     · exact clean_of_holds hs h6
     · obtain ⟨a, ha, _⟩ := hs; cases ha
 
-theorem readonly_rejects_aux (sc : Stmt) (hg : guardedFirst sc = true) (fuel : Nat) (st : St) (os : Outcomes)
-    (hro : st.readonly = true) :
-    ((run fuel sc st os).exit = .roExc ∨ (run fuel sc st os).exit = .stuck) ∧
-    (run fuel sc st os).st.cur = st.cur ∧ (run fuel sc st os).st.saved = st.saved ∧
-    (run fuel sc st os).os = os := by
+theorem readonly_rejectsG (H : Handler) (sc : Stmt) (hg : guardedFirst sc = true) (fuel : Nat) (st : St)
+    (os : Outcomes) (hro : st.readonly = true) :
+    ((runG H fuel sc st os).exit = .roExc ∨ (runG H fuel sc st os).exit = .stuck) ∧
+    (runG H fuel sc st os).st.cur = st.cur ∧ (runG H fuel sc st os).st.saved = st.saved ∧
+    (runG H fuel sc st os).os = os := by
   induction fuel generalizing sc st with
-  | zero => rw [run_zero]; exact ⟨Or.inr rfl, rfl, rfl, rfl⟩
+  | zero => rw [runG_zero]; exact ⟨Or.inr rfl, rfl, rfl, rfl⟩
   | succ n ih =>
     cases sc with
-    | guard => simp [run, hro]
+    | guard => simp [runG, hro]
     | scope a =>
       have hga : guardedFirst a = true := by simpa [guardedFirst] using hg
       have h := ih a hga st hro
-      simp only [run]
-      generalize run n a st os = r at h ⊢
+      simp only [runG]
+      generalize runG H n a st os = r at h ⊢
       obtain ⟨he, h2, h3, h4⟩ := h
       rcases he with he | he <;> simp only [he] <;> exact ⟨by simp [he], h2, h3, h4⟩
     | seq a b =>
       cases a with
       | mark k =>
         have hgb : guardedFirst b = true := by simpa [guardedFirst] using hg
-        simp only [run]
+        simp only [runG]
         cases n with
-        | zero => simp [run_zero]
+        | zero => simp [runG_zero]
         | succ m =>
-          simp only [run]
+          simp only [runG]
           have h := ih b hgb { st with trace := k :: st.trace } hro
           exact h
       | guard =>
-        simp only [run]
+        simp only [runG]
         cases n with
-        | zero => simp [run_zero]
-        | succ m => simp [run, hro]
+        | zero => simp [runG_zero]
+        | succ m => simp [runG, hro]
       | seq x y =>
         have hga : guardedFirst (.seq x y) = true := by simpa [guardedFirst] using hg
         have h := ih (.seq x y) hga st hro
-        simp only [run]
-        generalize run n (.seq x y) st os = r at h ⊢
+        simp only [runG]
+        generalize runG H n (.seq x y) st os = r at h ⊢
         obtain ⟨he, h2, h3, h4⟩ := h
         rcases he with he | he <;> simp only [he] <;> exact ⟨by simp [he], h2, h3, h4⟩
       | scope x =>
         have hga : guardedFirst (.scope x) = true := by simpa [guardedFirst] using hg
         have h := ih (.scope x) hga st hro
-        simp only [run]
-        generalize run n (.scope x) st os = r at h ⊢
+        simp only [runG]
+        generalize runG H n (.scope x) st os = r at h ⊢
         obtain ⟨he, h2, h3, h4⟩ := h
         rcases he with he | he <;> simp only [he] <;> exact ⟨by simp [he], h2, h3, h4⟩
       | _ => simp [guardedFirst] at hg
     | _ => simp [guardedFirst] at hg
+
+theorem readonly_rejects_aux (sc : Stmt) (hg : guardedFirst sc = true) (fuel : Nat) (st : St) (os : Outcomes)
+    (hro : st.readonly = true) :
+    ((run fuel sc st os).exit = .roExc ∨ (run fuel sc st os).exit = .stuck) ∧
+    (run fuel sc st os).st.cur = st.cur ∧ (run fuel sc st os).st.saved = st.saved ∧
+    (run fuel sc st os).os = os :=
+  readonly_rejectsG Handler.shallow sc hg fuel st os hro
 
 end CssVerif.Mutators
